@@ -61,10 +61,24 @@ def run(ctx):
     ctx.rule('R-C11d', 'the pid leaves the set exactly when a terminating status is reaped: delete and dead-flag store '
                        'are paired under the dead-status test; unregister deletes iff the flag is clear', floor=4)
     ctx.rule('R-C11e', 'every reaped status record is queued to an interest or freed; delivered and purged records are freed', floor=3)
+    ctx.rule('R-C11.cmp', 'writer and reader of the pid set agree: the tree comparator orders by pid and the hand-rolled lookup descends '
+                          'left iff the sought pid is smaller, right iff larger, and returns on equality', floor=6)
+    ctx.section(cmp_rules)
     ctx.section(lambda c: null_rule(c, 'R-C11a', ANCHOR_FILES))
     ctx.section(regions_and_dead)
     ctx.section(kill_gate)
     ctx.section(records)
+
+
+def cmp_rules(ctx):
+    from .. import cmprules
+    cmprules.key_comparator(ctx, 'R-C11.cmp', 'iv_wait_interest_compare', 'pid')
+    cmprules.descent(ctx, 'R-C11.cmp', '__iv_wait_interest_find', 'pid', on_equal='return')
+    # the tree is the one the comparator is installed for
+    g = ctx.prog.globals.get('iv_wait.c:iv_wait_interests') or ctx.prog.globals.get('iv_wait_interests')
+    ok = g is not None and 'iv_wait_interest_compare' in canon(g.get('init', {}).get('fields', {}).get('compare', {})) if g and g.get('init', {}).get('k') == 'init' else False
+    ctx.ob('R-C11.cmp', 'iv_wait_interests:comparator', ok, loc=g['loc'] if g else None,
+           detail='the interest tree is initialised with iv_wait_interest_compare')
 
 
 def regions_and_dead(ctx):
